@@ -46,6 +46,11 @@ mutual
     | .cons n e rest => .cons n (canonExpr ctx e) (canonParams ctx rest)
 end
 
+def canonTo (ctx : Ctx) : EvtTo → EvtTo
+  | .cls kl => .cls kl
+  | .creator kl => .creator kl
+  | .inst h => .inst (canonExpr ctx h)
+
 mutual
   def canonStmt (ctx : Ctx) : Stmt → Stmt
     | .assign l r => .assign (canonExpr ctx l) (canonExpr ctx r)
@@ -69,6 +74,9 @@ mutual
     | .while_ e b => .while_ (canonExpr ctx e) (canonBlock ctx b)
     | .if_ e b elifs els => .if_ (canonExpr ctx e) (canonBlock ctx b) (canonElifs ctx elifs) (canonElse ctx els)
     | .invoke e => .invoke (canonExpr ctx e)
+    | .genEvt l m d to => .genEvt l m (canonParams ctx d) (canonTo ctx to)
+    | .createEvt v l m d to => .createEvt v l m (canonParams ctx d) (canonTo ctx to)
+    | .genPre e => .genPre (canonExpr ctx e)
   def canonBlock (ctx : Ctx) : Block → Block
     | .nil => .nil
     | .cons s rest => .cons (canonStmt ctx s) (canonBlock ctx rest)
